@@ -331,12 +331,12 @@ def check(repo, res, tier):
                 return None
             if ppc.p(e, ufr) == T:
                 return T, set()
-            if isinstance(e, ast.Name):
+            parts = ppc.seq_parts(e, ufr)
+            if parts is None and isinstance(e, ast.Name):
                 defs = assigned_names(u).get(e.id, [])
                 if len(defs) == 1 and isinstance(defs[0], ast.Assign):
                     return comp_of(defs[0].value, d + 1)
                 return None
-            parts = ppc.seq_parts(e, ufr)
             if parts is None:
                 return None
             elt, it, conds, lvars = parts
